@@ -1,5 +1,5 @@
 CONSTANTS
-  KMaxTr = 2
+  KMaxTr = 3
   EmitOn = TRUE
 INIT Init
 NEXT Next
